@@ -189,11 +189,11 @@ theorem code_digits : ∀ k : Fin 500, ∃ d1 d2 d3, natToDec (100 + k.val) = [d
   · rename_i d1 d2 d3 e; exact ⟨d1, d2, d3, e, this⟩
   · cases this
 
-/-- **every status 100–599 with a reason phrase of words** (`[A-Za-z0-9_]` and whitespace, starting with
-    a word character) composes and parses back to the same code and phrase -/
+/-- **every status 100–599 with a reason phrase of visible ASCII and white space** (not starting with white
+    space) composes and parses back to the same code and phrase -/
 theorem status_roundtrip (code : Nat) (reason : Bytes) (hc : 100 ≤ code ∧ code ≤ 599)
-    (hr : ∀ b ∈ reason, isWordChar b = true ∨ isPySpace b = true)
-    (h0 : ∃ c rest, reason = c :: rest ∧ isWordChar c = true) :
+    (hr : ∀ b ∈ reason, isReasonChar b = true)
+    (h0 : ∃ c rest, reason = c :: rest ∧ isPySpace c = false) :
     parseStatus (composeStatus code reason) = .ok (code, reason) := by
   obtain ⟨d1, d2, d3, e, hd⟩ := code_digits ⟨code - 100, by omega⟩
   have e' : natToDec code = [d1, d2, d3] := by
@@ -201,15 +201,13 @@ theorem status_roundtrip (code : Nat) (reason : Bytes) (hc : 100 ≤ code ∧ co
     simpa [this] using e
   have hdec : decNat [d1, d2, d3] = code := by rw [← e']; exact (natToDec_spec code).1
   obtain ⟨c, rest, rfl, hcw⟩ := h0
-  have hcs : isPySpace c = false := by
-    have : ∀ b : Byte, isWordChar b = true → isPySpace b = false := by apply allBytes; decide +kernel
-    exact this c hcw
-  have hall : ((0x20 : Byte) :: c :: rest).all (fun b => isPySpace b || isWordChar b) = true := by
+  have hcs : isPySpace c = false := hcw
+  have hall : ((0x20 : Byte) :: c :: rest).all isReasonChar = true := by
     rw [List.all_eq_true]
     intro b hb
     rcases List.mem_cons.mp hb with h | h
     · subst h; decide
-    · rcases hr b h with h1 | h1 <;> simp [h1]
+    · exact hr b h
   unfold parseStatus composeStatus
   rw [e']
   simp only [List.cons_append, List.nil_append, hd, Bool.not_true, Bool.false_eq_true, if_false, hall]
@@ -266,7 +264,7 @@ theorem response_line_fields (line : Bytes) (h : (splitWs 1 (strip isPySpace lin
 theorem regex_tables :
     Gen.methodRe = (Gen.methodReExpected) ∧ Gen.statusRe = Gen.statusReExpected ∧ Gen.protocolRe = Gen.protocolReExpected
     ∧ (List.range 256).map (fun n => isMethodChar (UInt8.ofNat n)) = Gen.methodCharTable
-    ∧ (List.range 256).map (fun n => isPySpace (UInt8.ofNat n) || isWordChar (UInt8.ofNat n)) = Gen.statusReasonCharTable
+    ∧ (List.range 256).map (fun n => isReasonChar (UInt8.ofNat n)) = Gen.statusReasonCharTable
     ∧ (List.range 256).map (fun n => isDigit (UInt8.ofNat n)) = Gen.protocolDigitTable
     ∧ Gen.serverProtocol = serverProtocol := by
   refine ⟨?_, ?_, ?_, ?_, ?_, ?_, ?_⟩ <;> decide +kernel
